@@ -244,6 +244,10 @@ func certSweep(era Era, p Params) []certSeq {
 		{"pool-new-and-rereg", []Cert{pool(PN), pool(P)}},
 		{"pool-new-then-retire", []Cert{pool(PN), {Kind: CPoolRetire, Key: PN, Pool: PN, Amount: 5}}},
 		{"pool-retire", []Cert{{Kind: CPoolRetire, Key: P, Pool: P, Amount: 5}}},
+		{"pool-rereg-then-retire", []Cert{pool(P), {Kind: CPoolRetire, Key: P, Pool: P, Amount: 7}}},
+		{"pool-retire-then-rereg", []Cert{{Kind: CPoolRetire, Key: P, Pool: P, Amount: 7}, pool(P)}},
+		{"pool-retire-then-new", []Cert{{Kind: CPoolRetire, Key: P, Pool: P, Amount: 7}, pool(PN)}},
+		{"pool-new-retire-rereg", []Cert{pool(PN), {Kind: CPoolRetire, Key: PN, Pool: PN, Amount: 7}, pool(P)}},
 	}
 	if era >= Conway {
 		creg := func(k int) Cert { return Cert{Kind: CReg, Key: k, Amount: p.KeyDeposit} }
@@ -267,10 +271,11 @@ func certSweep(era Era, p Params) []certSeq {
 
 // buildCertCase: one input, one output, the given certificates; the output
 // coin is solved from the reference formula so that the case is balanced.
-func buildCertCase(era Era, cs []Cert, p Params, delta int64) *Case {
+func buildCertCase(era Era, cs []Cert, p Params, delta int64, poolRetiring *uint64) *Case {
 	ss := newStSpec()
 	ss.StakeReg[4], ss.StakeReg[6] = true, true
 	ss.Pools[8] = true
+	ss.PoolRetiring[8] = poolRetiring // pool 8 is registered, possibly with a pending retirement
 	ss.DReps[10] = true
 	in := In{TxID: hash256([]byte("certsweep")), Ix: 0, Key: 0, V: Val{Coin: 5_000_000_000}}
 	tx := &TxSpec{Era: era, Net: 0, Ins: []In{in}, Certs: cs, Fee: p.MinFeeA*3000 + p.MinFeeB + 1000,
